@@ -213,7 +213,9 @@ class ExprMixin:
         return out
 
     def ev_GeneratorExp(self, node, env):
-        return self.ev_ListComp(node, env)
+        r = self.ev_ListComp(node, env)
+        self._last_genexp = r  # lets next(<generator expression>, default) be told from next(<list>)
+        return r
 
     def ev_SetComp(self, node, env):
         out = []
